@@ -120,6 +120,9 @@ func (w *schedWorker) Item(idx int, emit func(vf.Violation), st sweep.Stats, sam
 	st["steps"] += ex.Steps
 	st["nontrivial_executions"] += nontrivial
 	st["distinct_outcomes"] += len(ex.Outcomes)
+	if sc.Bound > 0 {
+		st[fmt.Sprintf("bounded_scenarios_completed_bound_%d", ex.BoundDone)]++
+	}
 	if ex.Capped {
 		st["scenarios_capped"]++
 	} else {
@@ -128,7 +131,11 @@ func (w *schedWorker) Item(idx int, emit func(vf.Violation), st sweep.Stats, sam
 	if ex.MaxDepth > st["max_depth"] {
 		st["max_depth"] = ex.MaxDepth
 	}
-	sample(fmt.Sprintf("%s: %d executions, %d states, max depth %d, %d outcome(s), capped=%v", sc.Name, ex.Execs, ex.States(), ex.MaxDepth, len(ex.Outcomes), ex.Capped))
+	bd := ""
+	if sc.Bound > 0 {
+		bd = fmt.Sprintf(", preemption bound completed=%d of %d (iterative: lower bounds are re-explored)", ex.BoundDone, sc.Bound)
+	}
+	sample(fmt.Sprintf("%s: %d executions, %d states, max depth %d, %d outcome(s), capped=%v%s", sc.Name, ex.Execs, ex.States(), ex.MaxDepth, len(ex.Outcomes), ex.Capped, bd))
 }
 
 func normNumbers(s string) string {
@@ -156,11 +163,58 @@ func runSchedWith(prop, tier string, args []string, w *schedWorker, rule string,
 	if sweep.IsWorker(args) {
 		return sweep.RunWorker(w, args)
 	}
+	if len(args) >= 2 && args[0] == "--trace" {
+		// debugging aid: hs <ID> <tier> --trace <scenario index> [choices...] prints the default (or given) schedule's trace
+		var idx int
+		fmt.Sscan(args[1], &idx)
+		var choices []int
+		for _, a := range args[2:] {
+			var c int
+			fmt.Sscan(a, &c)
+			choices = append(choices, c)
+		}
+		sc := w.scenarios[idx]
+		r := vs.Run(nil, choices, sc.Body, vs.Options{CapMap: sc.CapMap, KeepTrace: true})
+		tr := r.Trace
+		if len(tr) > 300 {
+			tr = append(append([]string{}, tr[:150]...), append([]string{"..."}, tr[len(tr)-150:]...)...)
+		}
+		fmt.Fprintf(vf.Out, "%s\nstatus=%s detail=%s out=%v steps=%d\n%s\n", sc.Name, r.Status, r.Detail, r.Out, len(r.Trace), strings.Join(tr, "\n"))
+		return 0
+	}
+	if len(args) >= 2 && args[0] == "--probe" {
+		// debugging aid: every single deviation from the default schedule, no cache
+		var idx int
+		fmt.Sscan(args[1], &idx)
+		sc := w.scenarios[idx]
+		base := vs.Run(nil, nil, sc.Body, vs.Options{CapMap: sc.CapMap})
+		outs := map[string]int{}
+		for i := range base.Points {
+			for alt := 1; alt < len(base.Points[i].Enabled); alt++ {
+				ch := append(append([]int{}, base.Choices[:i]...), alt)
+				r := vs.Run(nil, ch, sc.Body, vs.Options{CapMap: sc.CapMap})
+				k := r.Status + " " + strings.Join(r.Out, ",")
+				if outs[k] == 0 {
+					fmt.Fprintf(vf.Out, "point %d alt %d/%d: %s\n", i, alt, len(base.Points[i].Enabled), k)
+				}
+				outs[k]++
+			}
+		}
+		fmt.Fprintf(vf.Out, "%d points, outcomes: %v\n", len(base.Points), outs)
+		return 0
+	}
 	run := vf.NewRun(prop, tier, "model_checking")
 	extraN := 0
 	var extraSamples []string
+	prev := map[string]any{}
+	var prevAssume []string
 	if extra != nil {
 		extraN, extraSamples = extra(run)
+		// an unscheduled part that fills in its own coverage (C11) is merged below
+		for k, v := range run.Coverage {
+			prev[k] = v
+		}
+		prevAssume = run.Assume
 	}
 	budget := 15 * time.Minute
 	if tier == "thorough" {
@@ -180,6 +234,11 @@ func runSchedWith(prop, tier string, args []string, w *schedWorker, rule string,
 	run.Coverage["distinct_outcomes_summed"] = res.Stats["distinct_outcomes"]
 	run.Coverage["steplimit_executions"] = res.Stats["steplimit_executions"]
 	run.Coverage["max_schedule_depth"] = res.Stats["max_depth"]
+	for k, v := range res.Stats {
+		if strings.HasPrefix(k, "bounded_scenarios_completed_bound_") {
+			run.Coverage[k] = v
+		}
+	}
 	run.Coverage["evaluations"] = res.Stats["executions"]
 	run.Coverage["distinct_nontrivial"] = res.Stats["nontrivial_executions"]
 	run.Coverage["exhaustive"] = res.Stats["scenarios_capped"] == 0 && !res.DeadlineHit && res.Done >= w.N()
@@ -190,10 +249,27 @@ func runSchedWith(prop, tier string, args []string, w *schedWorker, rule string,
 	}
 	run.Coverage["samples"] = s
 	run.Coverage["unscheduled_extra_cases"] = extraN
-	run.Assume = append([]string{
+	for _, k := range []string{"states", "transitions", "traces_validated_against_impl", "evaluations", "distinct_nontrivial"} {
+		if p, ok := prev[k].(int); ok {
+			if c, ok := run.Coverage[k].(int); ok {
+				run.Coverage[k] = c + p
+			}
+		}
+	}
+	if p, ok := prev["exhaustive"].(bool); ok {
+		run.Coverage["exhaustive"] = p && run.Coverage["exhaustive"].(bool)
+	}
+	if p, ok := prev["rule"].(string); ok {
+		run.Coverage["rule"] = p + " || " + rule
+	}
+	if p, ok := prev["samples"].([]string); ok {
+		run.Coverage["samples"] = append(p, s...)
+	}
+	run.Assume = append(append([]string{}, prevAssume...), []string{
 		"scheduling points are the channel, mutex, wait-group, sleep, cancel and spawn operations of the instrumented files (tools/instr rewrites the current /repo sources; the site manifest is in .work/instr/out.json); code between two points runs atomically",
 		"the state cache identifies a state by every goroutine's causal hash and pending operation; shared memory the instrumenter does not hook is invisible to it (can lose behaviours, never invent one)",
 		"every reported schedule was replayed twice with identical observations before being believed",
-	}, assume...)
+	}...)
+	run.Assume = append(run.Assume, assume...)
 	return run.Finish()
 }
